@@ -363,7 +363,7 @@ def run(ctx):
 
     # 5. verdicts
     by_run = {}
-    slow = 0
+    slow = below = 0
     for (r, ev, reason) in rejected:
         if reason == "to2_failed_without_cause" and result_of(r).get("timeout"):
             # a run the deadline cut while it was still making progress says nothing (slow machine, hundreds of
@@ -372,8 +372,12 @@ def run(ctx):
             if len(tail) < 40 or any(e["ev"] not in ("m68", "m69") or e["kvs"] for e in tail):
                 slow += 1
                 continue
+        if reason == "to2_failed_without_cause" and category(result_of(r).get("msg", "")) in ("mtu-below-module-name", "mtu-below-minimum"):
+            below += 1          # the property starts at the minimum MTU: a single name / a single byte does not fit
+            continue
         by_run.setdefault(r[0]["run"], (r, ev, reason))
     ctx.notes["runs_cut_by_deadline_while_progressing_not_judged"] = slow
+    ctx.notes["runs_below_minimum_mtu_not_judged"] = below
     nrej = 0
     for runid, (r, ev, reason) in sorted(by_run.items()):
         case = cases[runid - 1]
